@@ -45,6 +45,7 @@ const (
 	EvDelay   // freeze every message currently in flight to Node until the script has ended (a long delay)
 	EvPauseApply // script-only: Arg 1 pauses, 0 resumes the node's apply thread (async storage writes)
 	EvPauseAppend // script-only: Arg 1 pauses, 0 resumes the node's append thread (async storage writes)
+	EvPauseReady  // script-only: Arg 1 = the application stops calling Ready on Node (steps still arrive), 0 = resumes
 	EvHoldFrom    // script-only: messages released by Node from now on are held back (delayed) until EvFlush / end of script
 	EvFlush       // script-only: every held-back message becomes deliverable (holds stay in force for later messages)
 	numEventKinds
@@ -52,7 +53,7 @@ const (
 
 var evNames = [...]string{"none", "Ready", "ReadyApply", "Advance", "Append", "Apply", "Local", "Deliver", "Drop", "Dup",
 	"Tick", "Campaign", "Propose", "ProposeConf", "ReadIndex", "Transfer", "ForgetLeader", "Unreachable", "ReportSnap",
-	"Compact", "Crash", "ReadyCrash", "AppendCrash", "Isolate", "Heal", "Cut", "Stop", "Delay", "PauseApply", "PauseAppend", "HoldFrom", "Flush"}
+	"Compact", "Crash", "ReadyCrash", "AppendCrash", "Isolate", "Heal", "Cut", "Stop", "Delay", "PauseApply", "PauseAppend", "PauseReady", "HoldFrom", "Flush"}
 
 func (k EventKind) String() string { return evNames[k] }
 
@@ -190,6 +191,7 @@ type Scenario struct {
 	DevBound int   // D-DFS: maximal number of deviations
 	// Deviation menu for D-DFS is Enabled() under Budget.
 	TrackOut bool // maintain the running output hash (C19)
+	NoClone  bool // D-DFS: successors are rebuilt by replay from scratch instead of clones, which keeps real memory aliasing between a node and the slices it handed out
 	SlowSnap bool // snapshots travel slowly: every MsgSnap is delayed until the script has ended (D-DFS)
 	MaxDepth int // BFS depth cap (0 = none)
 	MaxStates int // state cap (0 = none)
